@@ -125,7 +125,7 @@ pub const WS: [(&str, &str); 7] = [
     ("lf3", "\n\n\n"),
     ("crlf", "\r\n"),
 ];
-pub const CM: [(&str, &str); 10] = [
+pub const CM: [(&str, &str); 19] = [
     ("block", " /* c */ "),
     ("block-own-line", "\n/* c */\n"),
     ("block-multiline", "\n/* a\nb */\n"),
@@ -136,6 +136,17 @@ pub const CM: [(&str, &str); 10] = [
     ("line-own-line", "\n// c\n"),
     ("block-indented", "\n      /* c */\n"),
     ("block-two", "\n/* a */ /* b */\n"),
+    // the line break directly behind the opening / directly in front of the closing delimiter, empty comments, delimiters made of
+    // more than one star, a slash directly behind the opening delimiter, CRLF inside and behind a comment
+    ("block-banner", "\n/*\n * a\n */\n"),
+    ("block-lf-first", " /*\nc */ "),
+    ("block-lf-last", "\n/* c\n*/\n"),
+    ("block-empty", " /**/ "),
+    ("block-stars", "\n/*** c ***/\n"),
+    ("block-slash", " /*/ c */ "),
+    ("line-empty", " //\n"),
+    ("line-crlf", " // c\r\n"),
+    ("block-crlf", "\n/* a\r\nb */\r\n"),
 ];
 
 /// role of the gap before token i (for violation keys): what kind of position the layout sits in
